@@ -390,9 +390,7 @@ func (x *Exec) snapshotLive(fr *Frame, e *Edge) {
 				if e.Live == nil {
 					e.Live = map[ssa.Value]Val{}
 				}
-				if _, dup := e.Live[v]; !dup {
-					e.Live[v] = val
-				}
+				e.Live[v] = val // the loop being left defines v: the frame value is the current one
 			}
 		}
 	}
@@ -400,6 +398,14 @@ func (x *Exec) snapshotLive(fr *Frame, e *Edge) {
 
 // execLoop runs loop L given edges entering its header from outside.
 func (x *Exec) execLoop(fr *Frame, L *Loop, in []Edge) ([]Edge, error) {
+	// entering L afresh: carried values defined inside L (from an earlier activation of L) are stale
+	for i := range in {
+		for v := range in[i].Live {
+			if ins, ok := v.(ssa.Instruction); ok && ins.Block() != nil && L.Blocks[ins.Block()] {
+				delete(in[i].Live, v)
+			}
+		}
+	}
 	if lc := x.loopContract(fr, L); lc != nil {
 		return x.execLoopInvariant(fr, L, in, lc)
 	}
@@ -449,6 +455,25 @@ func loopPos(L *Loop) token.Pos {
 
 // execBlock merges incoming edges, binds phis and executes the block; returns outgoing edges.
 func (x *Exec) execBlock(fr *Frame, b *ssa.BasicBlock, in []Edge) ([]Edge, error) {
+	carry := map[ssa.Value]Val{}
+	out, err := x.execBlock1(fr, b, in, carry)
+	if err != nil {
+		return nil, err
+	}
+	// values defined in loops that were exited on the way here travel with the edges (the frame Env only holds
+	// the value of the latest iteration)
+	if len(carry) > 0 {
+		for i := range out {
+			out[i].Live = make(map[ssa.Value]Val, len(carry))
+			for k, v := range carry {
+				out[i].Live[k] = v
+			}
+		}
+	}
+	return out, nil
+}
+
+func (x *Exec) execBlock1(fr *Frame, b *ssa.BasicBlock, in []Edge, carry map[ssa.Value]Val) ([]Edge, error) {
 	var sts []*State
 	for _, e := range in {
 		sts = append(sts, e.St)
@@ -485,6 +510,7 @@ func (x *Exec) execBlock(fr *Frame, b *ssa.BasicBlock, in []Edge) ([]Edge, error
 			}
 			if have {
 				fr.Env[v] = x.nameVal(v.Name(), cur)
+				carry[v] = fr.Env[v]
 			}
 		}
 	}
